@@ -182,6 +182,17 @@ def eval_dunder(model, clsname, meth, field, self_lin, osort, other_lin,
                 ipv, stale = denote_ip(I, got, x, rng)
                 res['ip'] = ipv
                 res['ip_show'] = vs.show(vs.thaw(ipv))
+                if rng == x.space:
+                    # in-place with `out` aliased to the point (C04-R3a):
+                    # the leaves of this model are alias-safe, so the
+                    # expression classes must be as well
+                    xa = Vec(x.val, x.space)
+                    ra = apply(I, got, xa, out=xa)
+                    if ra is not None and ra is not xa:
+                        raise Undecided('in-place call returned another '
+                                        'object')
+                    res['alias'] = vs.freeze(xa.val)
+                    res['alias_show'] = vs.show(xa.val)
             # metadata (C04-R2)
             d, rg, lin = flags(I, got)
             res['meta'] = (d, rg, lin)
@@ -323,6 +334,16 @@ def _one(rep, model, cls, meth, field, self_lin, osort, other_lin, special):
                     % (tag, res['ip_show'], res['got_show']), rel, line)
             else:
                 rep.holds('R3', tag, 'in-place arm equals out-of-place arm')
+        if 'alias' in res:
+            if res['alias'] != res['got']:
+                rep.violation(
+                    'R3a', cons,
+                    '%s: evaluated in place with out aliased to the point '
+                    'the returned object leaves %s, out-of-place gives %s'
+                    % (tag, res['alias_show'], res['got_show']), rel, line)
+            else:
+                rep.holds('R3a', tag, 'aliased in-place arm equals the '
+                          'out-of-place arm')
         d, rg, lin = res['meta']
         want_lin = expected_meta(meth, osort, self_lin, bool(other_lin))
         probs = []
@@ -362,6 +383,8 @@ def eval_fun_dunder(model, meth, field, self_lin, osort, other_lin):
             other = Vec(vs.sym('v'), c.X)
         elif osort == 'vfield':
             other = Vec(vs.sym('v'), c.Z)
+        elif osort == 'vdom_left':
+            other = Vec(vs.sym('v'), c.X)
         elif osort == 'fun':
             other = I.opsym('g', c.X, F, other_lin, functional=True)
         xv = x
@@ -371,7 +394,7 @@ def eval_fun_dunder(model, meth, field, self_lin, osort, other_lin):
             elif osort in ('scalar', 'zero', 'vdom'):
                 exp = lambda: fx(I.binop(ast.Mult, other, xv))
         elif meth == '__rmul__':
-            if osort in ('scalar', 'zero', 'vfield'):
+            if osort in ('scalar', 'zero', 'vfield', 'vdom_left'):
                 exp = lambda: I.binop(ast.Mult, other, fx(xv))
         elif meth in ('__add__', '__radd__'):
             if osort == 'fun':
@@ -411,6 +434,20 @@ def eval_fun_dunder(model, meth, field, self_lin, osort, other_lin):
             d, rg, lin = flags(I, got)
             res['meta'] = (d, rg, lin)
             res['x_space'] = x.space
+            # vector-valued results (vector * functional): the in-place arm,
+            # also with `out` aliased to the point when the spaces agree
+            rng = I.getattr_value(got, 'range')
+            if isinstance(rng, SpaceV) and isinstance(r, Vec):
+                ipv, stale = denote_ip(I, got, x, rng)
+                res['ip'], res['ip_show'] = ipv, vs.show(vs.thaw(ipv))
+                if rng == x.space:
+                    xa = Vec(x.val, x.space)
+                    ra = apply(I, got, xa, out=xa)
+                    if ra is not None and ra is not xa:
+                        raise Undecided('in-place call returned another '
+                                        'object')
+                    res['alias'] = vs.freeze(xa.val)
+                    res['alias_show'] = vs.show(xa.val)
         return res
     return run_leaves(model, body)
 
@@ -421,7 +458,7 @@ def _fun_rows(rep, model):
     for field in ('R', 'C'):
         for meth, sorts in (
                 ('__mul__', ['op_right', 'scalar', 'zero', 'vdom']),
-                ('__rmul__', ['scalar', 'zero', 'vfield']),
+                ('__rmul__', ['scalar', 'zero', 'vfield', 'vdom_left']),
                 ('__add__', ['fun', 'scalar', 'zero']),
                 ('__radd__', ['scalar']),
                 ('__sub__', ['fun', 'scalar'])):
@@ -467,6 +504,45 @@ def _fun_rows(rep, model):
                             else:
                                 rep.holds('R1', tag, 'denotation %s'
                                           % res['exp_show'])
+                            # linearity flag of the result (R2): flagged
+                            # linear only if the expression is linear
+                            if res['outcome'] == 'value' and 'meta' in res:
+                                if meth == '__mul__' and osort == 'op_right':
+                                    truly = self_lin and bool(other_lin)
+                                elif meth in ('__mul__', '__rmul__'):
+                                    # 0 * f and f * 0 are the zero functional
+                                    truly = self_lin or osort == 'zero'
+                                elif osort == 'fun':
+                                    truly = self_lin and bool(other_lin)
+                                else:
+                                    truly = self_lin and osort == 'zero'
+                                if res['meta'][2] and not truly:
+                                    rep.violation(
+                                        'R2', cons, '%s: is_linear=True for '
+                                        'a non-linear expression' % tag,
+                                        dc.rel, mnode.lineno)
+                                else:
+                                    rep.holds('R2', tag + ':flag',
+                                              'linear=%s' % res['meta'][2])
+                            for key, rule, what in (
+                                    ('ip', 'R3', 'in place'),
+                                    ('alias', 'R3a', 'in place with out '
+                                     'aliased to the point')):
+                                if key not in res or res['outcome'] != \
+                                        'value':
+                                    continue
+                                if res[key] != res['got']:
+                                    rep.violation(
+                                        rule, cons, '%s: evaluated %s the '
+                                        'returned object leaves %s, '
+                                        'out-of-place gives %s'
+                                        % (tag, what, res[key + '_show'],
+                                           res['got_show']), dc.rel,
+                                        mnode.lineno)
+                                else:
+                                    rep.holds(rule, tag + ':' + key,
+                                              '%s arm equals the '
+                                              'out-of-place arm' % what)
     rep.count('functional_dunder_instances', n)
 
 
